@@ -22,7 +22,8 @@ CfgFault == {Cfg(1, 1, 2)}
 MCUniv(c) ==
     IF c = Cfg(1, 1, 1) THEN U({1}, {1}, {1}, {1}, {0}, 2)                            \* values
     ELSE IF c = Cfg(2, 1, 1) THEN U({1, 2}, {}, {1}, {1, 2, 3}, {0}, 0)               \* handles (key 3 is missing)
-    ELSE IF c = Cfg(1, 2, 2) THEN U({1}, {1, 2, 3}, {1, 2, 3}, {1}, {0}, 0)           \* readers x nodes
+    ELSE IF c = Cfg(1, 2, 2) THEN U({}, {1, 2, 3}, {1, 2, 3}, {1}, {0}, 0)            \* readers x nodes (deep)
+    ELSE IF c.nreq = 1 /\ c.rreq >= 3 THEN U({}, 1..(c.rreq + 1), {1}, {1}, {0}, 0)   \* readers (deep)
     ELSE IF c.nreq = 1 THEN U({1}, 1..(Eff(c.rreq) + 1), {1}, {1, 2}, {0}, 0)         \* readers (key 2 is missing)
     ELSE U({}, {1}, 1..(Eff(c.nreq) + 1), {1}, {0, Eff(c.nreq) + 1}, 0)               \* nodes
 FaultUniv(c) == U({1, 2}, {1, 2}, {1, 2}, {1}, {0}, 2)
